@@ -45,19 +45,22 @@ Qed.
 Lemma cbit_combo s q di t :
   onehot fb s q -> t < T fb ->
   Forall (fun f => isact fb f = true) (map fst di) ->
+  Forall (fun f => lappl fb f t = true) (map fst di) ->
   Forall (fun p => snd p < nlevels fb (fst p)) di ->
   combo_eqb (map snd di) (combo_at q (map fst di) t) = cbit fb s di t.
 Proof.
-  intros (_ & _ & _ & Hb & _) Ht Hf Hl. unfold combo_eqb, combo_at. rewrite list_eqb_combo. unfold cbit.
+  intros (_ & _ & _ & Hb & _) Ht Hf Ha Hl. unfold combo_eqb, combo_at. rewrite list_eqb_combo. unfold cbit.
   apply forallb_ext_in. intros p Hp.
   assert (Hfp : isact fb (fst p) = true) by (apply (proj1 (Forall_forall _ _) Hf); now apply in_map).
-  rewrite (Hb t (fst p) (snd p) Ht Hfp (proj1 (Forall_forall _ _) Hl p Hp)). unfold is_level. apply cell_eqb_sym.
+  assert (Hap : lappl fb (fst p) t = true) by (apply (proj1 (Forall_forall _ _) Ha); now apply in_map).
+  rewrite (Hb t (fst p) (snd p) Ht Hfp Hap (proj1 (Forall_forall _ _) Hl p Hp)). unfold is_level. apply cell_eqb_sym.
 Qed.
 
 (** no trial of the grid shows a combination the crossing excludes (proved from
     the Exclude and Derivation constraints in Encode/F1Excl.v) *)
 Definition NoExcl (s : asg) : Prop :=
-  forall c di t, Forall (fun f => isact fb f = true) c -> In di (crossing_combos fb c) -> t < T fb ->
+  forall c di t, Forall (fun f => isact fb f = true) c -> Forall (fun f => lappl fb f t = true) c ->
+    In di (crossing_combos fb c) -> t < T fb ->
     cbit fb s di t = true -> is_excluded_or_inconsistent fb di = false.
 
 Lemma tcs_sub c di : In di (trial_combinations_of fb c) -> In di (crossing_combos fb c).
@@ -65,14 +68,14 @@ Proof. unfold trial_combinations_of. intros H. apply filter_In in H. apply H. Qe
 
 (** on a complete sequence every trial shows some admitted combination *)
 Lemma onehot_matched s q c t (mul : list (nat * nat) -> nat) :
-  onehot fb s q -> NoExcl s -> Forall (fun f => isact fb f = true) c -> t < T fb ->
+  onehot fb s q -> NoExcl s -> Forall (fun f => isact fb f = true) c -> Forall (fun f => lappl fb f t = true) c -> t < T fb ->
   existsb (fun cm : list nat * nat => combo_eqb (fst cm) (combo_at q c t))
           (map (fun di => (map snd di, mul di)) (trial_combinations_of fb c)) = true.
 Proof.
-  intros Ho Hne Hf Ht. pose proof Ho as (_ & _ & Hc & _). apply existsb_exists.
+  intros Ho Hne Hf Ha Ht. pose proof Ho as (_ & _ & Hc & _). apply existsb_exists.
   set (lv := fun f => match get_cell q f t with Some l => l | None => 0 end).
   assert (Hlv : forall f, In f c -> lv f < nlevels fb f /\ get_cell q f t = Some (lv f)).
-  { intros f Hin. destruct (Hc t f Ht (proj1 (Forall_forall _ _) Hf f Hin)) as (l & Hl & El).
+  { intros f Hin. destruct (Hc t f Ht (proj1 (Forall_forall _ _) Hf f Hin) (proj1 (Forall_forall _ _) Ha f Hin)) as (l & Hl & El).
     unfold lv. rewrite El. split; [exact Hl|reflexivity]. }
   set (di0 := map (fun f => (f, lv f)) c).
   assert (Hfst : map fst di0 = c) by (unfold di0; rewrite map_map; cbn [fst]; apply map_id).
@@ -82,10 +85,10 @@ Proof.
   { rewrite Hsnd. apply combo_eqb_self. intros f Hin. apply (Hlv f Hin). }
   assert (Hshow : cbit fb s di0 t = true).
   { destruct (combos_spec fb HF1 HT c di0 Hin0) as [_ B].
-    rewrite <- (cbit_combo s q di0 t Ho Ht); [rewrite Hfst; exact Hself|rewrite Hfst; exact Hf|exact B]. }
+    rewrite <- (cbit_combo s q di0 t Ho Ht); [rewrite Hfst; exact Hself|rewrite Hfst; exact Hf|rewrite Hfst; exact Ha|exact B]. }
   exists (map snd di0, mul di0). split.
   - apply (in_map (fun di => (map snd di, mul di))). unfold trial_combinations_of. apply filter_In. split; [exact Hin0|].
-    now rewrite (Hne c di0 t Hf Hin0 Ht Hshow).
+    now rewrite (Hne c di0 t Hf Ha Hin0 Ht Hshow).
   - cbn [fst]. exact Hself.
 Qed.
 
@@ -94,36 +97,42 @@ Theorem cross1_sem s q i c :
   (Pcross1 fb i c s <-> crossing_ok (code_sem fb) q (code_crossing fb i c) = true).
 Proof.
   intros Ho Hne Hcf. pose proof (crossing_f1_factors fb i c Hcf) as Hc.
+  destruct (crossing_f1_starts fb i c Hcf) as [Hpre Hc2].
   unfold crossing_f1 in Hcf. rewrite !andb_true_iff in Hcf. destruct Hcf as [[[_ Hsize] _] _].
   unfold crossing_ok.
-  set (cc := code_crossing fb i c).
+  set (cc := code_crossing fb i c). set (pre := preamble_size fb i) in *.
+  assert (Happ : forall t, pre <= t -> Forall (fun f => lappl fb f t = true) c).
+  { intros t Ht. apply Forall_forall. intros f Hf.
+    pose proof (proj1 (Forall_forall _ _) Hc f Hf) as Ha. destruct (proj1 (Forall_forall _ _) Hc2 f Hf) as [Hs Hst].
+    cbv beta in Ha. rewrite (lappl_stride1 fb HF1 f t Ha Hs). apply Nat.leb_le. lia. }
   assert (Hchunk : c_chunk cc = nth i (fl_sizes fb) 0 * crossing_weight fb c) by reflexivity.
-  assert (Hfirst : c_first cc = 0) by (apply (f1_preamble fb HF1 i)).
+  assert (Hfirst : c_first cc = pre) by reflexivity.
   assert (Hfac : c_factors cc = c) by reflexivity.
   assert (Hmult : c_mult cc = map (fun di => (map snd di, combination_weight fb di * sustain_of fb (hd 0 c) * crossing_weight fb c))
                                   (trial_combinations_of fb c)) by reflexivity.
   assert (Htr : s_trials (code_sem fb) = T fb) by reflexivity.
   assert (Hpos : 0 < c_chunk cc) by (rewrite Hchunk; apply Nat.ltb_lt; exact Hsize).
-  assert (Hfuel : s_trials (code_sem fb) - 0 < S (s_trials (code_sem fb))) by lia.
+  assert (Hfuel : s_trials (code_sem fb) - pre < S (s_trials (code_sem fb))) by lia.
   rewrite Hfirst, Hchunk, Hsize, andb_true_l.
-  rewrite (chunks_awc (code_sem fb) q cc Hpos (S (s_trials (code_sem fb))) 0 Hfuel).
-  assert (Hm : forall t, 0 <= t < s_trials (code_sem fb) -> matched q cc t).
-  { intros t Ht. rewrite Htr in Ht. unfold matched. rewrite Hfac, Hmult. apply (onehot_matched s q c t _ Ho Hne Hc). lia. }
-  rewrite Hmult, Forall_map, Hchunk. unfold Pcross1.
-  assert (K : Forall (fun di => awc_ok (S (T fb)) (map (cbit fb s di) (seq 0 (T fb)))
+  rewrite (chunks_awc (code_sem fb) q cc Hpos (S (s_trials (code_sem fb))) pre Hfuel).
+  assert (Hm : forall t, pre <= t < s_trials (code_sem fb) -> matched q cc t).
+  { intros t Ht. rewrite Htr in Ht. unfold matched. rewrite Hfac, Hmult. apply (onehot_matched s q c t _ Ho Hne Hc); [apply Happ|]; lia. }
+  rewrite Hmult, Forall_map, Hchunk. unfold Pcross1. fold pre.
+  assert (K : Forall (fun di => awc_ok (S (T fb - pre)) (map (cbit fb s di) (seq pre (T fb - pre)))
                                   (combination_weight fb di * sustain_of fb (hd 0 c) * crossing_weight fb c)
                                   (nth i (fl_sizes fb) 0 * crossing_weight fb c)) (trial_combinations_of fb c) <->
               Forall (fun x => awc_ok (S (s_trials (code_sem fb)))
-                                  (skipn 0 (cbits (code_sem fb) q cc
+                                  (skipn pre (cbits (code_sem fb) q cc
                                      (map snd x, combination_weight fb x * sustain_of fb (hd 0 c) * crossing_weight fb c)))
                                   (snd (map snd x, combination_weight fb x * sustain_of fb (hd 0 c) * crossing_weight fb c))
                                   (nth i (fl_sizes fb) 0 * crossing_weight fb c)) (trial_combinations_of fb c)).
   { apply Forall_iff_ext. intros di Hdi. destruct (combos_spec fb HF1 HT c di (tcs_sub c di Hdi)) as [A B].
-    cbn [skipn snd]. rewrite Htr. unfold cbits. rewrite Htr, Hfac. cbn [fst].
-    replace (map (fun t => combo_eqb (map snd di) (combo_at q c t)) (seq 0 (T fb)))
-      with (map (cbit fb s di) (seq 0 (T fb))); [reflexivity|].
-    apply map_ext_in. intros t Ht. apply in_seq in Ht. symmetry. rewrite <- A.
-    apply cbit_combo; [exact Ho|lia|rewrite A; exact Hc|exact B]. }
+    cbn [snd]. rewrite Htr. unfold cbits. rewrite Htr, Hfac. cbn [fst]. rewrite skipn_map_seq.
+    replace (map (fun t => combo_eqb (map snd di) (combo_at q c t)) (seq pre (T fb - pre)))
+      with (map (cbit fb s di) (seq pre (T fb - pre))).
+    - apply awc_ok_fuel; [rewrite <- Hchunk; exact Hpos| |]; rewrite map_length, seq_length; lia.
+    - apply map_ext_in. intros t Ht. apply in_seq in Ht. symmetry. rewrite <- A.
+      apply cbit_combo; [exact Ho|lia|rewrite A; exact Hc|rewrite A; apply Happ; lia|exact B]. }
   rewrite K. split; [intros H; split; [exact Hm|exact H]|intros [_ H]; exact H].
 Qed.
 
